@@ -26,7 +26,7 @@ theorem BuiltC.leaf (n : Nat) (c : FContent) (v : Value) (hc : treeOfContent c =
   simp only [handles, handlesList, List.mem_singleton] at hh
   omega
 
-theorem eraseList_append (a b : List HTree) : eraseList (a ++ b) = eraseList a ++ eraseList b := by
+theorem ffx_eraseList_append (a b : List HTree) : eraseList (a ++ b) = eraseList a ++ eraseList b := by
   induction a with
   | nil => rfl
   | cons k ks ih => simp [eraseList, ih]
@@ -84,7 +84,7 @@ mutual
               rw [this] at hadj; cases hadj
             · exact hadj)
       refine ⟨HTree.node f.next (.element nm) (K ++ ts), ⟨rfl, ?_, ?_, ?_⟩, ?_⟩
-      · simp only [erase, treeOfContent, eraseList_append, hts.erase, K, eraseList_headKids,
+      · simp only [erase, treeOfContent, ffx_eraseList_append, hts.erase, K, eraseList_headKids,
           List.append_assoc]
       · intro h hh
         simp only [handles, handlesList_append_ff, List.mem_cons, List.mem_append] at hh
